@@ -51,6 +51,7 @@ def gen_inputs(ctx, salt, n_gold, n_gen):
                 else:
                     b[i:i] = c03.to_bytes([r.choice(c03.ALPHABET)])
             out.append((name + "@mutation", bytes(b)))
+    out.append(("cycle", b"module Ma\n  include Mb\n  def fa\n    1\n  end\nend\nmodule Mb\n  include Ma\nend\nclass Cc\n  include Ma\nend\nCc.new.fa\nCc.new.nothing\nMa.zz\n"))
     out.append(("cycle", b"class Aa < Bb\n  def foo\n    1\n  end\nend\nclass Bb < Aa\nend\nAa.new.foo\nAa.new.bar\nmodule Mm\n  include Mm\nend\n"))
     return out
 
